@@ -44,6 +44,7 @@ def _model(fname):
     u1 = SymObj("Point", label="u1", name=None)
     mk = lambda x, k: (x, SymObj("Point", label="g%d" % k, name=None), SymObj("Expression", label="f%d" % k, name=None))
     list1 = [mk(x0, 0), mk(x1, 1), mk(x1, 2)]            # the operator was evaluated twice at x1
+    list1[2] = (list1[2][0], list1[2][1], list1[1][2])   # ... as a function that is not differentiable is: same point, same value, another subgradient
     x3 = SymObj("Point", label="x3", name="x3")
     list1.append((x3, list1[0][1], SymObj("Expression", label="f3", name=None)))       # another sample with the very same gradient object (two
     #                                                                                    stationary points recorded with one shared zero point)
@@ -63,7 +64,7 @@ def _run(fn, me, bindings):
         nm = call_name(node)
         f = node.func
         if isinstance(f, ast.Name) and it.env.get(f.id) == ("callback",):
-            c = SymObj("Constraint", label="c%d" % len(made), args=tuple(it.ev(a) for a in node.args), name=None)
+            c = SymObj("Constraint", label="c%d" % len(made), args=tuple(it.call_args(node)), name=None)
             made.append(c)
             return c
         if isinstance(f, ast.Attribute):
@@ -79,7 +80,7 @@ def _run(fn, me, bindings):
                     recv.attrs["name"] = v
                     return None
                 if isinstance(recv, list) and nm == "reshape":
-                    a = [it.ev(x) for x in node.args]
+                    a = it.call_args(node)
                     a = list(a[0]) if len(a) == 1 and isinstance(a[0], (tuple, list)) else a
                     if a == [1, -1] and not any(isinstance(r, list) for r in recv):
                         return [list(recv)]
@@ -88,7 +89,7 @@ def _run(fn, me, bindings):
                     return recv
             if nm == "DataFrame":
                 kw = {k.arg: it.ev(k.value) for k in node.keywords if k.arg}
-                args = [it.ev(a) for a in node.args]
+                args = it.call_args(node)
                 data = args[0] if args else kw.get("data")
                 return SymObj("DataFrame", label="df", data=data, columns=kw.get("columns", args[2] if len(args) > 2 else None),
                               index=kw.get("index", args[1] if len(args) > 1 else None))
@@ -281,7 +282,7 @@ def r_reader(ctx):
                         return [tuple(r) for r in recv.attrs["data"]]
             if nm == "DataFrame":
                 kw = {k.arg: it.ev(k.value) for k in node.keywords if k.arg}
-                args = [it.ev(a) for a in node.args]
+                args = it.call_args(node)
                 return SymObj("DataFrame", label="out", data=args[0] if args else kw.get("data"), columns=kw.get("columns", args[2] if len(args) > 2 else None),
                               index=kw.get("index", args[1] if len(args) > 1 else None))
             if nm in ("array", "asarray") and len(node.args) == 1:
